@@ -52,6 +52,11 @@ class PropertyBuilder:
         """builder(z3) -> (hyps, goal): a statement over the spec functions, proved on every run"""
         self.tasks.append(Task("lemma", name, builder=builder, expect=expect))
 
+    def spec_lemma(self, name, module, params, hyps, goal):
+        """a statement over contract expressions (the same text the contracts use), for arbitrary values of `params`:
+        hyps / goal are spec expressions evaluated in `module`'s namespace"""
+        self.tasks.append(Task("spec_lemma", name, module=module, params=params, hyps=list(hyps), goal=goal))
+
     def install(self, fn):
         self.installers.append(fn)
 
